@@ -20,7 +20,7 @@ RUNTIME = {
             ('random', 'nesting', 6000, 'trace'), ('random', 'windows', 3000, 'trace'),
             ('random', 'forever', 2000, 'trace'), ('sweep', 'tie', 4, 'trace'),
             ('suite',)],
-    'C02': [('sweep', 'gap', 6, 'trace'), ('random', 'vwin', 4000, 'trace'), ('random', 'big', 2500, 'trace'), ('random', 'ties', 14000, 'trace'), ('random', 'windows', 5000, 'trace'),
+    'C02': [('sweep', 'fanout', 6, 'trace'), ('sweep', 'gap', 6, 'trace'), ('random', 'vwin', 4000, 'trace'), ('random', 'big', 2500, 'trace'), ('random', 'ties', 14000, 'trace'), ('random', 'windows', 5000, 'trace'),
             ('random', 'forever', 5000, 'trace'), ('random', 'generic', 5000, 'trace'),
             ('sweep', 'tie', 4, 'trace'), ('sweep', 'window', 2, 'trace'),
             ('suite',)],
@@ -54,7 +54,7 @@ RUNTIME = {
             ('random', 'nesting', 8000, 'trace'), ('random', 'abort', 6000, 'trace'),
             ('random', 'generic', 5000, 'trace'), ('random', 'shutdown', 4000, 'trace'),
             ('suite',)],
-    'C12': [('sweep', 'gap', 6, 'trace'), ('random', 'vwin', 4000, 'trace'), ('random', 'big', 2500, 'trace'), ('random', 'ties', 12000, 'trace'), ('random', 'windows', 10000, 'trace'),
+    'C12': [('sweep', 'fanout', 3, 'trace'), ('sweep', 'gap', 6, 'trace'), ('random', 'vwin', 4000, 'trace'), ('random', 'big', 2500, 'trace'), ('random', 'ties', 12000, 'trace'), ('random', 'windows', 10000, 'trace'),
             ('random', 'generic', 4000, 'trace'), ('random', 'forever', 3000, 'trace'),
             ('sweep', 'tie', 4, 'trace'), ('sweep', 'window', 2, 'trace'),
             ('random', 'ties', 4000, 'perm'), ('random', 'nesting', 3000, 'perm')],
